@@ -102,34 +102,28 @@ def parseMode? (s : String) : Option (Mode CRat) :=
   | ["s", nr, nc, idx, vals] => do
     let nr ← parseNat? nr; let nc ← parseNat? nc
     let ix ← parseNatList? idx; let vs ← parseVec? vals
-    if ix.length == vs.length && ix.all (· < nc) then pure (Mode.sp nr nc (ix.zip vs)) else none
+    if ix.length == vs.length then pure (Mode.sp nr nc (ix.zip vs)) else none
   | _ => none
 
-/-- the description of the Python object handed to `ModeBasis(...)`; shapes and index ranges
-that NumPy/SciPy guarantee are validated here (never defaulted) -/
-def parseInput? : List String → Option (Input CRat)
-  | ["ndarray", npix, nmodes, rows] => do
-    let n ← parseNat? npix; let m ← parseNat? nmodes; let r ← parseMat? rows
-    if wellShaped n m r then pure (.ndarray n m r) else none
-  | ["spmat", fmt, npix, nmodes, p, q, data] => do
-    let n ← parseNat? npix; let m ← parseNat? nmodes
-    let p ← parseNatList? p; let q ← parseNatList? q; let d ← parseVec? data
-    match fmt with
-    | "csc" =>
-      if p.length == m + 1 && q.length == d.length && q.all (· < n) && p.getLast? == some d.length then
-        pure (.spmat .csc n m p q d) else none
-    | "csr" =>
-      if p.length == n + 1 && q.length == d.length && q.all (· < m) && p.getLast? == some d.length then
-        pure (.spmat .csr n m p q d) else none
-    | "coo" =>
-      if p.length == d.length && q.length == d.length && p.all (· < n) && q.all (· < m) then
-        pure (.spmat .coo n m p q d) else none
-    | _ => none
-  | ["seq", kind, items] => do
-    let t ← (if kind == "tuple" then some true else if kind == "list" then some false else none)
-    let ms ← (if items == "-" then some [] else (items.splitOn ";").mapM parseMode?)
-    pure (.seq t ms)
-  | _ => none
+/-- the description of the Python object handed to `ModeBasis(...)`; the shapes and index ranges
+that NumPy/SciPy guarantee are validated by `Input.valid` (never defaulted) — the predicate
+`fromInput_WF` is about -/
+def parseInput? (args : List String) : Option (Input CRat) := do
+  let inp ← (match args with
+    | ["ndarray", npix, nmodes, rows] => do
+      let n ← parseNat? npix; let m ← parseNat? nmodes; let r ← parseMat? rows
+      pure (Input.ndarray n m r)
+    | ["spmat", fmt, npix, nmodes, p, q, data] => do
+      let n ← parseNat? npix; let m ← parseNat? nmodes
+      let p ← parseNatList? p; let q ← parseNatList? q; let d ← parseVec? data
+      let f ← (match fmt with | "csc" => some SpFmt.csc | "csr" => some SpFmt.csr | "coo" => some SpFmt.coo | _ => none)
+      pure (Input.spmat f n m p q d)
+    | ["seq", kind, items] => do
+      let t ← (if kind == "tuple" then some true else if kind == "list" then some false else none)
+      let ms ← (if items == "-" then some [] else (items.splitOn ";").mapM parseMode?)
+      pure (Input.seq t ms)
+    | _ => none)
+  if inp.valid then pure inp else none
 
 def mirrorStep (st : St) : List String → St × String
   | ["new", npix, nmodes, rows] =>
